@@ -654,9 +654,16 @@ sexp sexp_bootstrap_context (sexp_uint_t size, sexp_uint_t max_size) {
 }
 #endif
 
+#if SEXP_USE_VERIF_HOOKS
+extern __thread int sexp_verif_bootstrapping;
+#endif
+
 sexp sexp_make_context (sexp ctx, size_t size, size_t max_size) {
   sexp_gc_var1(res);
   if (ctx) sexp_gc_preserve1(ctx, res);
+#if SEXP_USE_VERIF_HOOKS
+  if (! ctx) sexp_verif_bootstrapping++;
+#endif
 #if ! SEXP_USE_GLOBAL_HEAP
   if (! ctx) {
     res = sexp_bootstrap_context(size, max_size);
@@ -703,6 +710,9 @@ sexp sexp_make_context (sexp ctx, size_t size, size_t max_size) {
   } else {
     sexp_init_context_globals(res);
   }
+#if SEXP_USE_VERIF_HOOKS
+  if (! ctx) sexp_verif_bootstrapping--;
+#endif
   return res;
 }
 
